@@ -524,7 +524,9 @@ def factorize_2d(
 
     if sort:
         argsort = multi_index.argsort()
-        combined_codes = np.argsort(argsort)[combined_codes]
+        # old code -> new code; the null code -1 stays -1
+        remap = np.append(np.argsort(argsort), -1)
+        combined_codes = remap[combined_codes]
         multi_index = multi_index[argsort]
 
     return combined_codes, multi_index
